@@ -59,8 +59,8 @@ class NumberType(Type):
             return np.isclose(float(left), float(right), rtol=Numeric.PRECISION)
         
     def __ne__(self, other):
-        left, right = self._prepare(other)
-        return BooleanType(left != right)
+        # the complement of ==, with the same tolerance (a value cannot be equal and unequal to another at once)
+        return BooleanType(not self.__eq__(other))
 
     def __lt__(self, other):
         left, right = self._prepare(other)
